@@ -31,7 +31,7 @@ func sweepConfigs(def *PropDef, c *Check, repo string, extra map[string]interfac
 			continue
 		}
 		c2 := newCheck(P2, def.ID, c.Tier)
-		def.Run(c2)
+		runProperty(def, c2)
 		v, u := 0, 0
 		for _, o := range c2.Obs {
 			switch o.Status {
